@@ -2,6 +2,7 @@ import PhyVerif.Driver.Json
 import PhyVerif.Driver.Rat
 import PhyVerif.Model.C16
 import PhyVerif.Model.C16c
+import PhyVerif.Model.C16d
 import PhyVerif.Spec.C16
 namespace PhyVerif.Driver
 open Lean PhyVerif.C16
@@ -40,16 +41,21 @@ def runC16 (op : String) (j : Json) : R Json := do
                       ("impl_spec", spec)])
   | "get_chunk_bounds" =>
     -- with "rate" (exact rational of the float handed to the real reader) instead of "cs": the chunk length
-    -- is the model's `chunkSize rate`; a rate the constructor rejects gives model = null
+    -- is the model's `chunkSizeFl rate` (float product, then round); a rate the constructor rejects gives model = null
     let sizes ← getNats j "sizes"
-    let csI : Int ← if hasFld j "rate" then do
+    let (csI, extra) ← if hasFld j "rate" then do
         let rate ← fld j "rate" >>= asRat
-        pure (chunkSize rate)
+        -- `exact_cs` = the exact-rational model; `inrange` = the float product is a normal double or zero
+        -- `reader` = the constructor's bounds as ONE model definition (`readerChunkBoundsFl`: chunk length, assert, bounds)
+        pure (chunkSizeFl rate, [("exact_cs", jInt (chunkSize rate)),
+                                 ("inrange", Json.bool (decide (PhyVerif.Fl.InRange (defaultChunkDuration * rate)))),
+                                 ("product_is_double", Json.bool (PhyVerif.Fl.isDoubleB (defaultChunkDuration * rate))),
+                                 ("reader", jOpt jNats (readerChunkBoundsFl sizes rate))])
       else do
         let cs ← getNat j "cs"
-        pure (cs : Int)
+        pure ((cs : Int), [])
     if csI ≤ 0 then
-      pure (Json.mkObj [("model", Json.null), ("cs", jInt csI)])
+      pure (Json.mkObj ([("model", Json.null), ("cs", jInt csI)] ++ extra))
     else
     let cs := csI.toNat
     let m := getChunkBounds sizes cs
@@ -57,10 +63,10 @@ def runC16 (op : String) (j : Json) : R Json := do
         let ib ← getNats j "impl"
         pure (Json.bool (boundsOK sizes cs ib && intervalsTile sizes.sum (iterChunksBase ib)))
       else pure Json.null
-    pure (Json.mkObj [("model", jNats m), ("cs", jNat cs), ("part_bounds", jNats (partBounds sizes)),
+    pure (Json.mkObj ([("model", jNats m), ("cs", jNat cs), ("part_bounds", jNats (partBounds sizes)),
                       ("iter", jList jPairN (iterChunksBase m)),
                       ("model_spec", Json.bool (boundsOK sizes cs m && intervalsTile sizes.sum (iterChunksBase m))),
-                      ("impl_spec", spec)])
+                      ("impl_spec", spec)] ++ extra))
   | "iter_mts" =>
     let b ← getNats j "bounds"; let bs ← getNat j "bs"
     let m := iterChunksMts bs b
@@ -74,16 +80,21 @@ def runC16 (op : String) (j : Json) : R Json := do
     let tbl ← if hasFld j "cd" then do
         let n ← getNat j "n"
         let cd ← fld j "cd" >>= asRat; let rate ← fld j "rate" >>= asRat
-        let cs := mtsChunkSize cd rate
-        if cs ≤ 0 then pure [("table_cs", jInt cs)] else
-        pure [("table_cs", jInt cs), ("table", jOpt jNats (mtsTable n cs.toNat)),
-              ("table_spec", Json.bool (boundsOK [n] cs.toNat b))]
+        let cs := mtsChunkSizeFl cd rate
+        let ex := [("table_exact_cs", jInt (mtsChunkSize cd rate)),
+                   ("table_inrange", Json.bool (decide (PhyVerif.Fl.InRange (cd * rate))))]
+        if cs ≤ 0 then pure ([("table_cs", jInt cs)] ++ ex) else
+        pure ([("table_cs", jInt cs), ("table", jOpt jNats (mtsTable n cs.toNat)),
+              ("table_spec", Json.bool (boundsOK [n] cs.toNat b))] ++ ex)
       else pure []
     pure (Json.mkObj ([("model", jList jPairN m), ("model_spec", Json.bool (intervalsTile n m)),
                       ("impl_spec", spec)] ++ tbl))
   | "chunk_size" =>
     let rate ← fld j "rate" >>= asRat
-    pure (Json.mkObj [("model", jInt (chunkSize rate))])
+    -- `exact` = the exact-rational model (`chunkSize`), for the tally of rates on which the float product matters
+    pure (Json.mkObj [("model", jInt (chunkSizeFl rate)), ("exact", jInt (chunkSize rate)),
+                      ("inrange", Json.bool (decide (PhyVerif.Fl.InRange (defaultChunkDuration * rate)))),
+                      ("product_is_double", Json.bool (PhyVerif.Fl.isDoubleB (defaultChunkDuration * rate)))])
   | "excerpts" =>
     let n ← getInt j "n"; let k ← getInt j "k"; let size ← getInt j "size"
     let m := excerpts n k size
